@@ -177,7 +177,7 @@ impl Check for C14 {
         true
     }
     fn units(&self, tier: Tier) -> Vec<Unit> {
-        vec![Unit::gen("resolve", 16, tier.pick(200, 5000))]
+        vec![Unit::gen("resolve", 16, tier.pick(1200, 10_000))]
     }
     fn required_classes(&self, _tier: Tier) -> Vec<&'static str> {
         vec!["resolution:by_extension", "resolution:by_detection_or_f", "resolution:-f_given", "extension:mixed_case", "input:fifo", "input:stdin", "input:directory", "stdin_twice", "outcome:ok", "outcome:failed", "content:valid_stream", "content:invalid"]
